@@ -322,27 +322,29 @@ func checkC14(p *Prog, r *Report) {
 				r.Unknown("reader user "+f.Name, p.Pos(c.Pos()), "call not in CFG")
 				continue
 			}
-			// find the err != nil true edges downstream whose cond tests the err of this call
+			// the read may be repeated only over an edge that established err == nil for this call:
+			// with those edges removed, the call must not be able to reach itself
 			bad := ""
-			for _, b := range g.Blocks {
-				for _, e := range b.Succs {
-					if e.Cond == nil || e.Cond.Op != "truth" {
-						continue
-					}
-					for _, ft := range p.FactsOfCond(e.Cond, e.Val) {
-						if ft.Op == "==" && !ft.Val && p.isNilExpr(ft.Y) {
-							if cc, _, ok := p.ResolveCall(f, ft.X); ok && cc == c || p.errOfCall(f, ft.X, c) {
-								// from e.To, can we reach the call again?
-								reach := g.Reach([]*Block{e.To}, nil)
-								if reach[loc.B] {
-									bad = p.Pos(e.Cond.X.Pos())
-								}
-							}
+			okEdge := func(e *Edge) bool {
+				for _, ft := range p.FactsOfCond(e.Cond, e.Val) {
+					if ft.Op == "==" && ft.Val && p.isNilExpr(ft.Y) {
+						if cc, _, ok := p.ResolveCall(f, ft.X); ok && cc == c || p.errOfCall(f, ft.X, c) {
+							return false
 						}
 					}
 				}
+				return true
 			}
-			r.Check(bad == "", "reader user "+f.Root().Name, p.Pos(c.Pos()), "error edge cannot reach the read again", "after a framing error (tested at "+bad+") the loop reads from the same stream again: a desynchronised stream yields fabricated packets")
+			var starts []*Block
+			for _, e := range loc.B.Succs {
+				if okEdge(e) {
+					starts = append(starts, e.To)
+				}
+			}
+			if reach := g.Reach(starts, okEdge); reach[loc.B] {
+				bad = p.Pos(c.Pos())
+			}
+			r.Check(bad == "", "reader user "+f.Root().Name, p.Pos(c.Pos()), "the read repeats only after err == nil", "the loop can read from the same stream again without having established that the previous read succeeded (e.g. after io.ErrShortBuffer, which leaves the frame body unread): a desynchronised stream yields fabricated packets")
 		}
 	}
 
